@@ -5,14 +5,13 @@ open AcqVerif.Channel
 
 set_option maxHeartbeats 8000000 in
 theorem DEnd.src (s : Nat) (cl : Client) (rs : DevState) : ∀ a ∈ srcActs s, ∀ st, a.guard st = true → TInv s st cl rs → DUse s st cl → DLog s st cl →
-    DId s st cl → st.cam.failAt = none → st.cam.emptyEvery = 0 → 0 < st.F → DEnd s st cl → DEnd s (a.upd st) cl := by
-  intro a ha st hg ht hu hl hi hf he hF h
+    DId s st cl → st.cam.emptyEvery = 0 → 0 < st.F → DEnd s st cl → DEnd s (a.upd st) cl := by
+  intro a ha st hg ht hu hl hi he hF h
   obtain ⟨k1, k2, k3, k4, k5, k6, k7, k8, k9, k10, k11, k12, k13⟩ := hu
   obtain ⟨d1, d2, d3, d4⟩ := hl
   obtain ⟨i1, i2, i3, i3', i4, i4', i5, i6, i7⟩ := hi
-  obtain ⟨e1, e2, e2a, e3, e3a, e3b, e4, e5, e6, e7, e8, w2, w4, w5, w6, w8, wa, e10, e10a, e10b, e11⟩ := h
+  obtain ⟨e1, e2, e2a, e3, e3a, e3b, e4, e5, e6, e7, e8, w2, w4, w5, w6, w8, wa, e10, e10a, e10b, e11, e12⟩ := h
   have tS := ht.start_src; have hs8 := stage_le cl.pc s
-  have hnf : camFault st = false := by simp [camFault, faultHits, hf]
   have hne : camEmpty st = false := by simp [camEmpty, he]
   have hwf := cv_wmap_fail st.sinkCh st.F
   have hwo := fun b => cv_wmap_ok k1 st.F b
@@ -23,9 +22,7 @@ theorem DEnd.src (s : Nat) (cl : Client) (rs : DevState) : ∀ a ∈ srcActs s, 
   -- src.wmap.ok
   case inr.inr.inr.inr.inr.inr.inr.inr.inl =>
     obtain ⟨b, hb⟩ := (isWok_iff _).mp hg.2
-    have hp : (cv st.sinkCh).pending = false := by
-      have := k7; rcases hg.1.1 with e | e <;> simp_all [srcHold]
-    obtain ⟨hok, hcv⟩ := hwo b hp hb
+    obtain ⟨hok, hcv⟩ := hwo b hb
     constructor
     all_goals (try simp only [hcv, srcComplete])
     all_goals (first | assumption | ((try simp only [srcFin, srcInLoop, snkErr, srcComplete] at *) <;> grind))
@@ -38,13 +35,14 @@ theorem DEnd.src (s : Nat) (cl : Client) (rs : DevState) : ∀ a ∈ srcActs s, 
     all_goals (first | assumption | ((try simp only [srcFin, srcInLoop, snkErr, srcComplete] at *) <;> grind))
   -- src.commit
   case inr.inr.inr.inr.inr.inr.inr.inr.inr.inr.inr.inr.inr.inr.inr.inr.inr.inr.inl =>
-    have hp : (cv st.sinkCh).pending = true := by have := k7; simp_all [srcHold]
+    have hsh : srcHold st.src.pc = true := by (have := hg.1; simp_all [srcHold])
+    have hp : (cv st.sinkCh).pending = true := k7 hsh
     obtain ⟨hok, hcv⟩ := hcm hp
     have hpc : st.src.pc ≠ .done := by rw [hg.1]; simp
     have hst : ¬ (1 ≤ stage cl.pc s) := by intro h1; exact hpc (tS h1 hs8)
     have ht : (step st.sinkCh Op.wcommit).1.total = (cv (step st.sinkCh Op.wcommit).1).total := rfl
     have ht0 : st.sinkCh.total = (cv st.sinkCh).total := rfl
-    have hw := k8 hp
+    have hw := k8 hsh
     constructor
     all_goals (try simp only [ht, ht0, hcv, srcComplete])
     case dropped =>
@@ -62,7 +60,7 @@ set_option maxHeartbeats 8000000 in
 theorem DEnd.flt (s : Nat) (cl : Client) (rs : DevState) : ∀ a ∈ fltActs, ∀ st, a.guard st = true → TInv s st cl rs → DUse s st cl → DEnd s st cl → DEnd s (a.upd st) cl := by
   intro a ha st hg ht hu h
   obtain ⟨k1, k2, k3, k4, k5, k6, k7, k8, k9, k10, k11, k12, k13⟩ := hu
-  obtain ⟨e1, e2, e2a, e3, e3a, e3b, e4, e5, e6, e7, e8, w2, w4, w5, w6, w8, wa, e10, e10a, e10b, e11⟩ := h
+  obtain ⟨e1, e2, e2a, e3, e3a, e3b, e4, e5, e6, e7, e8, w2, w4, w5, w6, w8, wa, e10, e10a, e10b, e11, e12⟩ := h
   have tF := ht.start_flt; have hs8 := stage_le cl.pc s
   have hf : (step st.filtCh (.rmap 0)).1 = st.filtCh := filt_rmap k2
   unfold fltActs at ha
@@ -79,7 +77,7 @@ theorem DEnd.snk (s : Nat) (cl : Client) (rs : DevState) : ∀ a ∈ snkActs s, 
   have hch := clHolds0_stop cl.pc s
   obtain ⟨k1, k2, k3, k4, k5, k6, k7, k8, k9, k10, k11, k12, k13⟩ := hu
   obtain ⟨d1, d2, d3, d4⟩ := hl
-  obtain ⟨e1, e2, e2a, e3, e3a, e3b, e4, e5, e6, e7, e8, w2, w4, w5, w6, w8, wa, e10, e10a, e10b, e11⟩ := h
+  obtain ⟨e1, e2, e2a, e3, e3a, e3b, e4, e5, e6, e7, e8, w2, w4, w5, w6, w8, wa, e10, e10a, e10b, e11, e12⟩ := h
   have hn1 := nrd_pos k3
   have hrm := cv_rmap0 k1 hn1
   have hru := fun k => cv_runmap0 k1 k hn1
